@@ -13,8 +13,10 @@ RULE = ("stream http: the real daemon (start_krill_daemon, in process) on a Unix
         "permission' role, built-in sets) plus no / wrong / admin-token credentials on both transports, a mapped and an "
         "unmapped socket peer, testbed on and off, admin-token provider as primary; EVERY row x method of the generated "
         "route table (GET/POST/DELETE/PUT, catch-all arms included) x CA handles with/without own entry is requested; the "
-        "model predicts 401/403/405/404-by-dispatch/served from the generated gates, listings and the audit actor are "
-        "compared, the CA list / command counts / publishers are compared before and after refused requests; the oracle "
+        "model predicts 401/403/405/404-by-dispatch/served from the generated gates; the CAs get a parent issue each (child "
+        "removed on the testbed parent's side) so that both listing endpoints (/api/v1/cas, /api/v1/bulk/cas/issues) have "
+        "content, and the set of handles shown to each role is compared with the admin's view filtered by the model; the "
+        "audit actor is compared, the CA list / command counts / publishers are compared before and after refused requests; the oracle "
         "re-judges every observed answer with the hand-written specification (Spec.required) instead of the generated "
         "gates. distinct_nontrivial = distinct (endpoint family, outcome, kind of identity) triples")
 
